@@ -22,6 +22,14 @@ use rumqttc::mqttbytes::v4::*;
 use rumqttc::mqttbytes::QoS;
 use rumqttc::{Event, MqttState, Outgoing, Request, StateError};
 
+/// Property selector of a harness instance: 0 = assert every clause, n = only the clauses labelled
+/// "Cnn:" (plus unlabelled ones).  An assertion that fails cuts its path, so a sibling property's
+/// clause that fails first would mask this property's clause; each property therefore gets its own
+/// instances in which foreign clauses are not asserted at all.
+pub const fn on(p: u8, label: u8) -> bool {
+    p == 0 || p == label
+}
+
 pub const MAXM: usize = 4; // table slots tracked by the ghost (max <= 3)
 pub const INC: usize = 4; // inbound QoS2 ids tracked: 0..INC
 
@@ -205,7 +213,7 @@ pub fn count(s: &Snap) -> u16 {
 }
 
 /// INV on the post-state
-pub fn check_inv(s: &Snap) {
+pub fn check_inv<const PR: u8>(s: &Snap) {
     assert!(s.slot[0].is_none() && !s.rel[0], "C07: id 0 recorded as in flight");
     let mut i = 1usize;
     while i <= s.max as usize {
@@ -214,22 +222,22 @@ pub fn check_inv(s: &Snap) {
         }
         i += 1;
     }
-    assert!(s.inflight == count(s), "C07: inflight counter out of step with the held publishes and releases");
-    assert!(s.inflight <= s.max, "C07: more unacknowledged publishes than the inflight limit");
-    assert!(s.last_pkid < s.max, "C07: allocator position outside 0..max");
-    assert!(s.last_puback <= s.max, "C11: last acknowledged id outside the table");
+    if on(PR, 7) { assert!(s.inflight == count(s), "C07: inflight counter out of step with the held publishes and releases") };
+    if on(PR, 7) { assert!(s.inflight <= s.max, "C07: more unacknowledged publishes than the inflight limit") };
+    if on(PR, 7) { assert!(s.last_pkid < s.max, "C07: allocator position outside 0..max") };
+    if on(PR, 11) { assert!(s.last_puback <= s.max, "C11: last acknowledged id outside the table") };
     if let Some(c) = s.coll {
         assert!(c.pkid >= 1 && c.pkid <= s.max, "C07: parked collision with an id outside 1..=max");
-        assert!(
+        if on(PR, 7) { assert!(
             s.slot[c.pkid as usize].is_some() || s.rel[c.pkid as usize],
             "C07: collision pending although its id is not held - it can never be resolved"
-        );
+        ) };
     }
 }
 
 /// C02: everything held before (slots, releases, parked collision) is still held after,
 /// except `gone_pub` / `gone_rel` (finally acknowledged by this step).
-pub fn check_held(pre: &Snap, post: &Snap, gone_pub: Option<u16>, gone_rel: Option<u16>) {
+pub fn check_held<const PR: u8>(pre: &Snap, post: &Snap, gone_pub: Option<u16>, gone_rel: Option<u16>) {
     let mut i = 1usize;
     while i <= pre.max as usize {
         if let Some(p) = pre.slot[i] {
@@ -245,7 +253,7 @@ pub fn check_held(pre: &Snap, post: &Snap, gone_pub: Option<u16>, gone_rel: Opti
     if let Some(c) = pre.coll {
         let still_parked = post.coll == Some(c);
         let registered = post.slot[c.pkid as usize] == Some(c);
-        assert!(still_parked || registered, "C02: the publish parked on an id collision is no longer held");
+        if on(PR, 2) { assert!(still_parked || registered, "C02: the publish parked on an id collision is no longer held") };
     }
 }
 
@@ -265,7 +273,7 @@ fn is_out(e: &Option<Event>, want: Outgoing) -> bool {
 // user -> state machine
 
 /// user publish under the event loop's admission rule (inflight < max, no collision pending)
-pub fn step_out_publish(max: u16) {
+pub fn step_out_publish<const PR: u8>(max: u16) {
     let (mut st, pre) = arb_state(max, false);
     kani::assume(crate::generated::admission::v4_takes_request(pre.inflight, max, pre.coll.is_some(), true)); // EventLoop::select guard, generated from source
     let qos_sel: u8 = kani::any();
@@ -281,43 +289,43 @@ pub fn step_out_publish(max: u16) {
     let post = snapshot(&mut st, max);
     let mut parked = false;
     'step: {
-    check_inv(&post);
-    check_held(&pre, &post, None, None);
+    check_inv::<PR>(&post);
+    check_held::<PR>(&pre, &post, None, None);
     if qos_sel == 0 {
         match &r {
             Ok(Some(Packet::Publish(out))) => {
                 assert!(out.pkid == 0 && out.qos == QoS::AtMostOnce, "C07: QoS0 publish must not carry an id");
-                assert!(view(out).tag == p.tag, "C02: publish content altered");
+                if on(PR, 2) { assert!(view(out).tag == p.tag, "C02: publish content altered") };
             }
-            _ => assert!(false, "C10: QoS0 publish not handed to the network"),
+            _ => if on(PR, 10) { assert!(false, "C10: QoS0 publish not handed to the network") },
         }
-        assert!(post == pre, "C07: QoS0 publish must not touch the window");
-        assert!(nev == 1 && is_out(&ev[0], Outgoing::Publish(0)), "C10: exactly one Outgoing::Publish(0) announcement");
+        if on(PR, 7) { assert!(post == pre, "C07: QoS0 publish must not touch the window") };
+        if on(PR, 10) { assert!(nev == 1 && is_out(&ev[0], Outgoing::Publish(0)), "C10: exactly one Outgoing::Publish(0) announcement") };
         break 'step;
     }
     let id = pre.last_pkid + 1;
-    assert!(post.last_pkid == if id == max { 0 } else { id }, "C07: cyclic id allocation");
+    if on(PR, 7) { assert!(post.last_pkid == if id == max { 0 } else { id }, "C07: cyclic id allocation") };
     let want = P { pkid: id, qos2: p.qos2, tag: p.tag };
     if pre.slot[id as usize].is_some() {
         // id still held by an unacknowledged publish: park, do not send, do not overwrite
-        assert!(matches!(r, Ok(None)), "C07: colliding publish must not be put on the wire");
-        assert!(post.coll == Some(want), "C02: colliding publish must be parked");
-        assert!(post.slot[id as usize] == pre.slot[id as usize], "C07: unacknowledged publish overwritten");
-        assert!(post.inflight == pre.inflight, "C07: parked publish counted as in flight");
-        assert!(nev == 1 && is_out(&ev[0], Outgoing::AwaitAck(id)), "C10: AwaitAck announcement");
+        if on(PR, 7) { assert!(matches!(r, Ok(None)), "C07: colliding publish must not be put on the wire") };
+        if on(PR, 2) { assert!(post.coll == Some(want), "C02: colliding publish must be parked") };
+        if on(PR, 7) { assert!(post.slot[id as usize] == pre.slot[id as usize], "C07: unacknowledged publish overwritten") };
+        if on(PR, 7) { assert!(post.inflight == pre.inflight, "C07: parked publish counted as in flight") };
+        if on(PR, 10) { assert!(nev == 1 && is_out(&ev[0], Outgoing::AwaitAck(id)), "C10: AwaitAck announcement") };
         parked = true;
     } else {
         match &r {
             Ok(Some(Packet::Publish(out))) => {
                 assert!(view(out) == want, "C07: publish on the wire carries a different id/content than recorded");
-                assert!(out.pkid >= 1 && out.pkid <= max, "C07: packet id outside 1..=max");
+                if on(PR, 7) { assert!(out.pkid >= 1 && out.pkid <= max, "C07: packet id outside 1..=max") };
             }
-            _ => assert!(false, "C02: accepted publish neither sent nor parked"),
+            _ => if on(PR, 2) { assert!(false, "C02: accepted publish neither sent nor parked") },
         }
-        assert!(post.slot[id as usize] == Some(want), "C02: accepted publish not recorded before sending");
-        assert!(post.inflight == pre.inflight + 1, "C07: inflight not incremented");
-        assert!(post.coll.is_none(), "C07: spurious collision");
-        assert!(nev == 1 && is_out(&ev[0], Outgoing::Publish(id)), "C10: exactly one Outgoing::Publish(id) announcement");
+        if on(PR, 2) { assert!(post.slot[id as usize] == Some(want), "C02: accepted publish not recorded before sending") };
+        if on(PR, 7) { assert!(post.inflight == pre.inflight + 1, "C07: inflight not incremented") };
+        if on(PR, 7) { assert!(post.coll.is_none(), "C07: spurious collision") };
+        if on(PR, 10) { assert!(nev == 1 && is_out(&ev[0], Outgoing::Publish(id)), "C10: exactly one Outgoing::Publish(id) announcement") };
         kani::cover!(id == max, "id wraps at the limit");
     }
     }
@@ -327,7 +335,30 @@ pub fn step_out_publish(max: u16) {
     core::mem::forget(st);
 }
 
-pub fn step_out_subscribe(max: u16) {
+/// A NEW user publish that reaches the state machine through `pending` (requests drained from the
+/// channel at a connection failure are appended to `pending`, and `select()` takes pending requests
+/// unconditionally - see the generated guard with pending_empty = false).  Same post-conditions as a
+/// normally admitted publish: whatever was held or parked before must still be held.
+pub fn step_out_publish_via_pending<const PR: u8>(max: u16) {
+    let (mut st, pre) = arb_state(max, false);
+    kani::assume(crate::generated::admission::v4_takes_request(pre.inflight, max, pre.coll.is_some(), false));
+    let mut p = any_p(0);
+    let publish = mk_publish(p);
+    let r = st.handle_outgoing_packet(Request::Publish(publish));
+    let (ev, _nev) = drain_events(&mut st);
+    let post = snapshot(&mut st, max);
+    check_held::<PR>(&pre, &post, None, None);
+    let id = pre.last_pkid + 1;
+    p.pkid = id;
+    let held = post.slot[id as usize] == Some(p) || post.coll == Some(p);
+    if on(PR, 2) { assert!(held, "C02: publish taken from pending is neither recorded nor parked") };
+    kani::cover!(pre.coll.is_some(), "a collision was already pending");
+    core::mem::forget(r);
+    core::mem::forget(ev);
+    core::mem::forget(st);
+}
+
+pub fn step_out_subscribe<const PR: u8>(max: u16) {
     let (mut st, pre) = arb_state(max, false);
     kani::assume(crate::generated::admission::v4_takes_request(pre.inflight, max, pre.coll.is_some(), true));
     let unsub: bool = kani::any();
@@ -339,23 +370,23 @@ pub fn step_out_subscribe(max: u16) {
     let (ev, nev) = drain_events(&mut st);
     let post = snapshot(&mut st, max);
     'step: {
-    check_inv(&post);
-    check_held(&pre, &post, None, None);
+    check_inv::<PR>(&post);
+    check_held::<PR>(&pre, &post, None, None);
     let id = pre.last_pkid + 1;
     match &r {
         Ok(Some(Packet::Subscribe(s))) => {
             assert!(!unsub && s.pkid == id && id >= 1 && id <= max, "C07: subscribe id outside 1..=max");
-            assert!(nev == 1 && is_out(&ev[0], Outgoing::Subscribe(id)), "C10: Outgoing::Subscribe announcement");
+            if on(PR, 10) { assert!(nev == 1 && is_out(&ev[0], Outgoing::Subscribe(id)), "C10: Outgoing::Subscribe announcement") };
         }
         Ok(Some(Packet::Unsubscribe(u))) => {
             assert!(unsub && u.pkid == id && id >= 1 && id <= max, "C07: unsubscribe id outside 1..=max");
-            assert!(nev == 1 && is_out(&ev[0], Outgoing::Unsubscribe(id)), "C10: Outgoing::Unsubscribe announcement");
+            if on(PR, 10) { assert!(nev == 1 && is_out(&ev[0], Outgoing::Unsubscribe(id)), "C10: Outgoing::Unsubscribe announcement") };
         }
-        _ => assert!(false, "C10: subscribe/unsubscribe not handed to the network"),
+        _ => if on(PR, 10) { assert!(false, "C10: subscribe/unsubscribe not handed to the network") },
     }
     let mut expect = pre;
     expect.last_pkid = if id == max { 0 } else { id };
-    assert!(post == expect, "C07: subscribe/unsubscribe must only advance the id allocator");
+    if on(PR, 7) { assert!(post == expect, "C07: subscribe/unsubscribe must only advance the id allocator") };
     core::mem::forget(r);
     }
     core::mem::forget(ev);
@@ -363,14 +394,14 @@ pub fn step_out_subscribe(max: u16) {
 }
 
 /// keep-alive ping flag protocol
-pub fn step_out_ping(max: u16) {
+pub fn step_out_ping<const PR: u8>(max: u16) {
     let (mut st, pre) = arb_state(max, false);
     let r = st.handle_outgoing_packet(Request::PingReq(PingReq));
     let (ev, nev) = drain_events(&mut st);
     let post = snapshot(&mut st, max);
     'step: {
-    check_inv(&post);
-    check_held(&pre, &post, None, None);
+    check_inv::<PR>(&post);
+    check_held::<PR>(&pre, &post, None, None);
     let coll_timeout = pre.coll.is_some() && pre.cpc + 1 >= 2;
     if coll_timeout {
         assert!(matches!(r, Err(StateError::CollisionTimeout)), "C18: second ping during an unresolved collision must fail");
@@ -379,11 +410,11 @@ pub fn step_out_ping(max: u16) {
             matches!(r, Err(StateError::AwaitPingResp)),
             "C18: a ping while the previous one is unanswered must report the connection as failed"
         );
-        assert!(nev == 0, "C10: announced a PINGREQ that was not sent");
+        if on(PR, 10) { assert!(nev == 0, "C10: announced a PINGREQ that was not sent") };
     } else {
         assert!(matches!(r, Ok(Some(Packet::PingReq))), "C18: ping refused although the broker answered the previous one");
-        assert!(post.await_pingresp, "C18: outstanding-ping flag not set");
-        assert!(nev == 1 && is_out(&ev[0], Outgoing::PingReq), "C10: PINGREQ announcement");
+        if on(PR, 18) { assert!(post.await_pingresp, "C18: outstanding-ping flag not set") };
+        if on(PR, 10) { assert!(nev == 1 && is_out(&ev[0], Outgoing::PingReq), "C10: PINGREQ announcement") };
     }
     kani::cover!(coll_timeout, "collision timeout");
     kani::cover!(!coll_timeout && pre.await_pingresp, "silent broker detected");
@@ -408,7 +439,7 @@ fn first_is_incoming(ev: &[Option<Event>; 3], want: &Packet) -> bool {
     matches!(&ev[0], Some(Event::Incoming(p)) if p == want)
 }
 
-pub fn step_in_puback(max: u16) {
+pub fn step_in_puback<const PR: u8>(max: u16) {
     let (mut st, pre) = arb_state(max, kani::any());
     let id = any_id(max);
     let pkt = Packet::PubAck(PubAck::new(id));
@@ -424,36 +455,36 @@ pub fn step_in_puback(max: u16) {
         if id <= max {
             expect.last_puback = post.last_puback; // rotation hint only (see C11)
         }
-        assert!(post == expect, "C10: unsolicited PUBACK corrupted the bookkeeping");
-        assert!(nev == 1, "C10: announced a write for an unsolicited PUBACK");
-        check_inv(&post);
+        if on(PR, 10) { assert!(post == expect, "C10: unsolicited PUBACK corrupted the bookkeeping") };
+        if on(PR, 10) { assert!(nev == 1, "C10: announced a write for an unsolicited PUBACK") };
+        check_inv::<PR>(&post);
         kani::cover!(id == 0xFFFF, "far away id");
         kani::cover!(id <= max, "id inside the table but not held");
         break 'step;
     }
-    check_inv(&post);
-    check_held(&pre, &post, Some(id), None);
-    assert!(post.last_puback == id, "C11: last acknowledged id not recorded");
+    check_inv::<PR>(&post);
+    check_held::<PR>(&pre, &post, Some(id), None);
+    if on(PR, 11) { assert!(post.last_puback == id, "C11: last acknowledged id not recorded") };
     let resolves = matches!(pre.coll, Some(c) if c.pkid == id);
     if resolves {
         let c = pre.coll.unwrap();
         match &r {
-            Ok(Some(Packet::Publish(out))) => assert!(view(out) == c, "C02: released publish differs from the parked one"),
-            _ => assert!(false, "C07: acknowledgement freed the colliding id but the parked publish was not sent"),
+            Ok(Some(Packet::Publish(out))) => if on(PR, 2) { assert!(view(out) == c, "C02: released publish differs from the parked one") },
+            _ => if on(PR, 7) { assert!(false, "C07: acknowledgement freed the colliding id but the parked publish was not sent") },
         }
-        assert!(post.slot[id as usize] == Some(c), "C02: released publish not recorded as unacknowledged");
-        assert!(post.coll.is_none() && post.cpc == 0, "C07: collision not cleared");
-        assert!(post.inflight == pre.inflight, "C07: inflight after collision release");
-        assert!(nev == 2 && is_out(&ev[1], Outgoing::Publish(id)), "C10: released publish not announced exactly once");
+        if on(PR, 2) { assert!(post.slot[id as usize] == Some(c), "C02: released publish not recorded as unacknowledged") };
+        if on(PR, 7) { assert!(post.coll.is_none() && post.cpc == 0, "C07: collision not cleared") };
+        if on(PR, 7) { assert!(post.inflight == pre.inflight, "C07: inflight after collision release") };
+        if on(PR, 10) { assert!(nev == 2 && is_out(&ev[1], Outgoing::Publish(id)), "C10: released publish not announced exactly once") };
         kani::cover!(true, "collision resolved by PUBACK");
     } else {
         assert!(matches!(r, Ok(None)), "C10: PUBACK must not produce a reply");
-        assert!(post.slot[id as usize].is_none(), "C07: acknowledged publish still held");
-        assert!(post.inflight == pre.inflight - 1, "C07: acknowledgement did not free the window");
-        assert!(post.coll == pre.coll, "C07: unrelated collision touched");
-        assert!(nev == 1, "C10: spurious announcement");
+        if on(PR, 7) { assert!(post.slot[id as usize].is_none(), "C07: acknowledged publish still held") };
+        if on(PR, 7) { assert!(post.inflight == pre.inflight - 1, "C07: acknowledgement did not free the window") };
+        if on(PR, 7) { assert!(post.coll == pre.coll, "C07: unrelated collision touched") };
+        if on(PR, 10) { assert!(nev == 1, "C10: spurious announcement") };
         // the admission guard opens again as soon as the window has room
-        assert!(post.inflight < max, "C07: window still full after an acknowledgement");
+        if on(PR, 7) { assert!(post.inflight < max, "C07: window still full after an acknowledgement") };
     }
     }
     core::mem::forget(r);
@@ -462,7 +493,7 @@ pub fn step_in_puback(max: u16) {
     core::mem::forget(pkt);
 }
 
-pub fn step_in_pubrec(max: u16) {
+pub fn step_in_pubrec<const PR: u8>(max: u16) {
     let (mut st, pre) = arb_state(max, kani::any());
     let id = any_id(max);
     let pkt = Packet::PubRec(PubRec::new(id));
@@ -474,18 +505,18 @@ pub fn step_in_pubrec(max: u16) {
     let solicited = id >= 1 && id <= max && pre.slot[id as usize].is_some();
     if !solicited {
         assert!(matches!(r, Err(StateError::Unsolicited(x)) if x == id), "C10: unsolicited PUBREC must be reported as an error");
-        assert!(post == pre, "C10: unsolicited PUBREC corrupted the bookkeeping");
-        assert!(nev == 1, "C10: announced a write for an unsolicited PUBREC");
+        if on(PR, 10) { assert!(post == pre, "C10: unsolicited PUBREC corrupted the bookkeeping") };
+        if on(PR, 10) { assert!(nev == 1, "C10: announced a write for an unsolicited PUBREC") };
         break 'step;
     }
     // the id moves from "publish unacknowledged" to "release pending": still held (C02)
-    assert!(matches!(r, Ok(Some(Packet::PubRel(ref x))) if x.pkid == id), "C10: PUBREC must be answered with PUBREL of the same id");
-    assert!(nev == 2 && is_out(&ev[1], Outgoing::PubRel(id)), "C10: PUBREL not announced exactly once");
-    assert!(post.slot[id as usize].is_none() && post.rel[id as usize], "C02: release not recorded as pending");
-    check_held(&pre, &post, Some(id), None);
+    if on(PR, 10) { assert!(matches!(r, Ok(Some(Packet::PubRel(ref x))) if x.pkid == id), "C10: PUBREC must be answered with PUBREL of the same id") };
+    if on(PR, 10) { assert!(nev == 2 && is_out(&ev[1], Outgoing::PubRel(id)), "C10: PUBREL not announced exactly once") };
+    if on(PR, 2) { assert!(post.slot[id as usize].is_none() && post.rel[id as usize], "C02: release not recorded as pending") };
+    check_held::<PR>(&pre, &post, Some(id), None);
     if !pre.rel[id as usize] {
-        check_inv(&post);
-        assert!(post.inflight == pre.inflight, "C07: QoS2 flow stays in flight until PUBCOMP");
+        check_inv::<PR>(&post);
+        if on(PR, 7) { assert!(post.inflight == pre.inflight, "C07: QoS2 flow stays in flight until PUBCOMP") };
     }
     kani::cover!(max < 2 || pre.rel[id as usize], "id reused while its previous release was still pending");
     }
@@ -495,7 +526,7 @@ pub fn step_in_pubrec(max: u16) {
     core::mem::forget(pkt);
 }
 
-pub fn step_in_pubcomp(max: u16) {
+pub fn step_in_pubcomp<const PR: u8>(max: u16) {
     let (mut st, pre) = arb_state(max, kani::any());
     let id = any_id(max);
     let pkt = Packet::PubComp(PubComp::new(id));
@@ -508,32 +539,32 @@ pub fn step_in_pubcomp(max: u16) {
     let solicited = id >= 1 && id <= max && pre.rel[id as usize];
     if !solicited {
         assert!(matches!(r, Err(StateError::Unsolicited(x)) if x == id), "C10: unsolicited PUBCOMP must be reported as an error");
-        assert!(post == pre, "C10: unsolicited PUBCOMP corrupted the bookkeeping");
-        assert!(nev == 1, "C10: announced a write for an unsolicited PUBCOMP");
+        if on(PR, 10) { assert!(post == pre, "C10: unsolicited PUBCOMP corrupted the bookkeeping") };
+        if on(PR, 10) { assert!(nev == 1, "C10: announced a write for an unsolicited PUBCOMP") };
         break 'step;
     }
-    check_held(&pre, &post, None, Some(id));
-    check_inv(&post);
-    assert!(!post.rel[id as usize], "C07: completed release still pending");
+    check_held::<PR>(&pre, &post, None, Some(id));
+    check_inv::<PR>(&post);
+    if on(PR, 7) { assert!(!post.rel[id as usize], "C07: completed release still pending") };
     let resolves = matches!(pre.coll, Some(c) if c.pkid == id) && pre.slot[id as usize].is_none();
     if resolves {
         let c = pre.coll.unwrap();
         match &r {
-            Ok(Some(Packet::Publish(out))) => assert!(view(out) == c, "C02: released publish differs from the parked one"),
-            _ => assert!(false, "C07: PUBCOMP freed the colliding id but the parked publish was not sent"),
+            Ok(Some(Packet::Publish(out))) => if on(PR, 2) { assert!(view(out) == c, "C02: released publish differs from the parked one") },
+            _ => if on(PR, 7) { assert!(false, "C07: PUBCOMP freed the colliding id but the parked publish was not sent") },
         }
-        assert!(post.slot[id as usize] == Some(c), "C02: publish released by PUBCOMP is on the wire but not recorded as unacknowledged");
-        assert!(post.coll.is_none() && post.cpc == 0, "C07: collision not cleared");
-        assert!(nev == 2 && is_out(&ev[1], Outgoing::Publish(id)), "C10: released publish not announced exactly once");
+        if on(PR, 2) { assert!(post.slot[id as usize] == Some(c), "C02: publish released by PUBCOMP is on the wire but not recorded as unacknowledged") };
+        if on(PR, 7) { assert!(post.coll.is_none() && post.cpc == 0, "C07: collision not cleared") };
+        if on(PR, 10) { assert!(nev == 2 && is_out(&ev[1], Outgoing::Publish(id)), "C10: released publish not announced exactly once") };
         kani::cover!(true, "collision resolved by PUBCOMP");
     } else if matches!(pre.coll, Some(c) if c.pkid == id) {
         // the colliding id is still held by a NEWER publish: the parked one must stay parked
-        assert!(post.coll == pre.coll || post.slot[id as usize] == pre.coll, "C02: parked publish lost on PUBCOMP");
+        if on(PR, 2) { assert!(post.coll == pre.coll || post.slot[id as usize] == pre.coll, "C02: parked publish lost on PUBCOMP") };
         seen_occupied_again = true;
     } else {
         assert!(matches!(r, Ok(None)), "C10: PUBCOMP must not produce a reply");
-        assert!(post.inflight == pre.inflight - 1, "C07: PUBCOMP did not free the window");
-        assert!(nev == 1, "C10: spurious announcement");
+        if on(PR, 7) { assert!(post.inflight == pre.inflight - 1, "C07: PUBCOMP did not free the window") };
+        if on(PR, 10) { assert!(nev == 1, "C10: spurious announcement") };
     }
     }
     kani::cover!(max < 2 || seen_occupied_again, "PUBCOMP for an id whose slot is occupied again");
@@ -544,7 +575,7 @@ pub fn step_in_pubcomp(max: u16) {
 }
 
 /// inbound QoS flows: PUBLISH q0/q1/q2 and PUBREL
-pub fn step_in_publish(max: u16) {
+pub fn step_in_publish<const PR: u8>(max: u16) {
     let manual: bool = kani::any();
     let (mut st, pre) = arb_state(max, manual);
     let qos_sel: u8 = kani::any();
@@ -564,21 +595,21 @@ pub fn step_in_publish(max: u16) {
     let post = snapshot(&mut st, max);
     'step: {
     assert!(nev >= 1 && first_is_incoming(&ev, &pkt), "C10: received publish not surfaced first, exactly once");
-    check_inv(&post);
+    check_inv::<PR>(&post);
     let mut expect = pre;
     if qos_sel == 2 {
         expect.inc[id as usize] = true;
     }
-    assert!(post == expect, "C10: inbound publish touched unrelated bookkeeping");
+    if on(PR, 10) { assert!(post == expect, "C10: inbound publish touched unrelated bookkeeping") };
     if qos_sel == 0 || manual {
         assert!(matches!(r, Ok(None)), "C10: no automatic acknowledgement expected (QoS0 / manual acks)");
-        assert!(nev == 1, "C10: announced an acknowledgement that was not sent");
+        if on(PR, 10) { assert!(nev == 1, "C10: announced an acknowledgement that was not sent") };
     } else if qos_sel == 1 {
         assert!(matches!(r, Ok(Some(Packet::PubAck(ref a))) if a.pkid == id), "C10: QoS1 publish must be answered with PUBACK of its id");
-        assert!(nev == 2 && is_out(&ev[1], Outgoing::PubAck(id)), "C10: PUBACK not announced exactly once");
+        if on(PR, 10) { assert!(nev == 2 && is_out(&ev[1], Outgoing::PubAck(id)), "C10: PUBACK not announced exactly once") };
     } else {
         assert!(matches!(r, Ok(Some(Packet::PubRec(ref a))) if a.pkid == id), "C10: QoS2 publish must be answered with PUBREC of its id");
-        assert!(nev == 2 && is_out(&ev[1], Outgoing::PubRec(id)), "C10: PUBREC not announced exactly once");
+        if on(PR, 10) { assert!(nev == 2 && is_out(&ev[1], Outgoing::PubRec(id)), "C10: PUBREC not announced exactly once") };
     }
     kani::cover!(qos_sel == 2 && !manual, "qos2 auto ack");
     kani::cover!(qos_sel == 1 && manual, "qos1 manual ack");
@@ -589,7 +620,7 @@ pub fn step_in_publish(max: u16) {
     core::mem::forget(pkt);
 }
 
-pub fn step_in_pubrel(max: u16) {
+pub fn step_in_pubrel<const PR: u8>(max: u16) {
     let (mut st, pre) = arb_state(max, kani::any());
     let id: u16 = kani::any();
     kani::assume((id as usize) < INC || id == 0xFFFF);
@@ -599,18 +630,18 @@ pub fn step_in_pubrel(max: u16) {
     let post = snapshot(&mut st, max);
     'step: {
     assert!(nev >= 1 && first_is_incoming(&ev, &pkt), "C10: received packet not surfaced first, exactly once");
-    check_inv(&post);
+    check_inv::<PR>(&post);
     let known = (id as usize) < INC && pre.inc[id as usize];
     if known {
         assert!(matches!(r, Ok(Some(Packet::PubComp(ref a))) if a.pkid == id), "C10: release of a known id must be answered with PUBCOMP");
-        assert!(nev == 2 && is_out(&ev[1], Outgoing::PubComp(id)), "C10: PUBCOMP not announced exactly once");
+        if on(PR, 10) { assert!(nev == 2 && is_out(&ev[1], Outgoing::PubComp(id)), "C10: PUBCOMP not announced exactly once") };
         let mut expect = pre;
         expect.inc[id as usize] = false;
-        assert!(post == expect, "C10: PUBREL touched unrelated bookkeeping");
+        if on(PR, 10) { assert!(post == expect, "C10: PUBREL touched unrelated bookkeeping") };
     } else {
         assert!(matches!(r, Err(StateError::Unsolicited(x)) if x == id), "C10: unsolicited PUBREL must be reported as an error");
-        assert!(post == pre, "C10: unsolicited PUBREL corrupted the bookkeeping");
-        assert!(nev == 1, "C10: announced a write for an unsolicited PUBREL");
+        if on(PR, 10) { assert!(post == pre, "C10: unsolicited PUBREL corrupted the bookkeeping") };
+        if on(PR, 10) { assert!(nev == 1, "C10: announced a write for an unsolicited PUBREL") };
     }
     kani::cover!(known, "known release");
     kani::cover!(id == 0xFFFF, "far away id");
@@ -622,7 +653,7 @@ pub fn step_in_pubrel(max: u16) {
 }
 
 /// PINGRESP, SUBACK, UNSUBACK: surfaced, no reply, only the ping flag changes
-pub fn step_in_misc(max: u16) {
+pub fn step_in_misc<const PR: u8>(max: u16) {
     let (mut st, pre) = arb_state(max, kani::any());
     let which: u8 = 0; // SUBACK / UNSUBACK: see in_misc_acks
     let pkt = match which {
@@ -635,14 +666,14 @@ pub fn step_in_misc(max: u16) {
     let post = snapshot(&mut st, max);
     'step: {
     assert!(nev == 1 && first_is_incoming(&ev, &pkt), "C10: received packet not surfaced exactly once");
-    assert!(matches!(r, Ok(None)), "C10: no reply expected");
+    if on(PR, 10) { assert!(matches!(r, Ok(None)), "C10: no reply expected") };
     let mut expect = pre;
     if which == 0 {
         expect.await_pingresp = false;
-        assert!(!post.await_pingresp, "C18: PINGRESP must clear the outstanding-ping flag");
+        if on(PR, 18) { assert!(!post.await_pingresp, "C18: PINGRESP must clear the outstanding-ping flag") };
     }
-    assert!(post == expect, "C10: bookkeeping touched");
-    check_inv(&post);
+    if on(PR, 10) { assert!(post == expect, "C10: bookkeeping touched") };
+    check_inv::<PR>(&post);
     }
     core::mem::forget(r);
     core::mem::forget(ev);
@@ -655,25 +686,25 @@ pub fn step_in_misc(max: u16) {
 
 /// `clean()` at an arbitrary INV state (= a connection failure at an arbitrary crash point),
 /// then replay of everything it returned through `handle_outgoing_packet` (session present).
-pub fn step_clean_replay(max: u16) {
+pub fn step_clean_replay<const PR: u8>(max: u16) {
     // all occupancy patterns with at most `max` entries, one after the other (constant-bound loop)
     let mut bits: u16 = 0;
     while bits < (1u16 << (2 * max)) {
         if bits.count_ones() as u16 <= max {
-            clean_replay_one(max, bits);
+            clean_replay_one::<PR>(max, bits);
         }
         bits += 1;
     }
 }
 
-pub fn clean_replay_one(max: u16, presence: u16) {
+pub fn clean_replay_one<const PR: u8>(max: u16, presence: u16) {
     let (mut st, pre) = arb_state_shaped(max, kani::any(), Some(presence));
     let pending = st.clean();
     let (_ev, nev) = drain_events(&mut st);
     core::mem::forget(_ev);
     let mid = snapshot(&mut st, max);
-    assert!(mid.inflight == 0 && !mid.await_pingresp && mid.cpc == 0, "C02: clean() must reset the connection-scoped state");
-    assert!(nev == 0, "C10: clean() announced a write");
+    if on(PR, 2) { assert!(mid.inflight == 0 && !mid.await_pingresp && mid.cpc == 0, "C02: clean() must reset the connection-scoped state") };
+    if on(PR, 10) { assert!(nev == 0, "C10: clean() announced a write") };
     // what must come back: every held publish (once, original id and content), before any release
     let mut npub = 0usize;
     let mut nrel = 0usize;
@@ -685,10 +716,10 @@ pub fn clean_replay_one(max: u16, presence: u16) {
         if pre.rel[i] {
             nrel += 1;
         }
-        assert!(mid.slot[i].is_none() && !mid.rel[i], "C02: clean() left entries in the tables");
+        if on(PR, 2) { assert!(mid.slot[i].is_none() && !mid.rel[i], "C02: clean() left entries in the tables") };
         i += 1;
     }
-    assert!(pending.len() == npub + nrel, "C02: clean() returned a different number of requests than were held");
+    if on(PR, 2) { assert!(pending.len() == npub + nrel, "C02: clean() returned a different number of requests than were held") };
     // publishes first, in table order rotated behind the last acknowledged id (C11)
     let mut k = 0usize;
     let mut seen = [false; MAXM];
@@ -698,16 +729,16 @@ pub fn clean_replay_one(max: u16, presence: u16) {
             Request::Publish(p) => {
                 let v = view(p);
                 let id = v.pkid as usize;
-                assert!(id >= 1 && id <= max as usize && pre.slot[id] == Some(v), "C02: clean() returned a publish that was not held (id or content changed)");
-                assert!(!seen[id], "C02: clean() returned a publish twice");
+                if on(PR, 2) { assert!(id >= 1 && id <= max as usize && pre.slot[id] == Some(v), "C02: clean() returned a publish that was not held (id or content changed)") };
+                if on(PR, 2) { assert!(!seen[id], "C02: clean() returned a publish twice") };
                 seen[id] = true;
                 // send order when the broker acknowledged in order: ids after last_puback first
                 let lp = pre.last_puback as usize;
                 let rank = if id > lp { (id - lp) as i32 } else { (id + max as usize + 1 - lp) as i32 };
-                assert!(rank > prev_rank, "C11: retransmission order is not the original send order");
+                if on(PR, 11) { assert!(rank > prev_rank, "C11: retransmission order is not the original send order") };
                 prev_rank = rank;
             }
-            _ => assert!(false, "C11: a publish held for retransmission comes after a release / is missing"),
+            _ => if on(PR, 11) { assert!(false, "C11: a publish held for retransmission comes after a release / is missing") },
         }
         k += 1;
     }
@@ -716,10 +747,10 @@ pub fn clean_replay_one(max: u16, presence: u16) {
         match &pending[k] {
             Request::PubRel(r) => {
                 let id = r.pkid as usize;
-                assert!(id >= 1 && id <= max as usize && pre.rel[id] && !relseen[id], "C02: clean() returned a release that was not pending (or twice)");
+                if on(PR, 2) { assert!(id >= 1 && id <= max as usize && pre.rel[id] && !relseen[id], "C02: clean() returned a release that was not pending (or twice)") };
                 relseen[id] = true;
             }
-            _ => assert!(false, "C02: pending release missing from clean()"),
+            _ => if on(PR, 2) { assert!(false, "C02: pending release missing from clean()") },
         }
         k += 1;
     }
@@ -735,8 +766,8 @@ pub fn clean_replay_one(max: u16, presence: u16) {
             (Request::Publish(p), Ok(Some(Packet::Publish(out)))) => {
                 assert!(view(out) == view(p), "C11: replayed publish differs from the original (id / content)")
             }
-            (Request::PubRel(p), Ok(Some(Packet::PubRel(out)))) => assert!(out.pkid == p.pkid, "C02: replayed release differs"),
-            _ => assert!(false, "C02: carried-over request was not transmitted again"),
+            (Request::PubRel(p), Ok(Some(Packet::PubRel(out)))) => if on(PR, 2) { assert!(out.pkid == p.pkid, "C02: replayed release differs") },
+            _ => if on(PR, 2) { assert!(false, "C02: carried-over request was not transmitted again") },
         }
         core::mem::forget(r);
         core::mem::forget(want);
@@ -750,40 +781,13 @@ pub fn clean_replay_one(max: u16, presence: u16) {
     let mut i = 1usize;
     while i <= max as usize {
         assert!(post.slot[i] == pre.slot[i], "C02: publish not held again after the replay");
-        assert!(post.rel[i] == pre.rel[i], "C02: release not pending again after the replay");
+        if on(PR, 2) { assert!(post.rel[i] == pre.rel[i], "C02: release not pending again after the replay") };
         i += 1;
     }
-    assert!(post.inflight == pre.inflight, "C07: inflight after replay");
-    assert!(post.coll == pre.coll, "C02: parked publish lost across the reconnect");
+    if on(PR, 7) { assert!(post.inflight == pre.inflight, "C07: inflight after replay") };
+    if on(PR, 2) { assert!(post.coll == pre.coll, "C02: parked publish lost across the reconnect") };
     kani::cover!(presence != 0 || true, "reached the end");
     core::mem::forget(st);
-}
-
-macro_rules! v4_steps {
-    ($($name:ident: $f:ident($max:expr), $unw:literal);* $(;)?) => {
-        $( sm_proof!($unw, $name, { $f($max) }); )*
-    };
-}
-
-v4_steps! {
-    out_publish_m1: step_out_publish(1), 6;
-    out_publish_m2: step_out_publish(2), 6;
-    out_publish_m3: step_out_publish(3), 7;
-    out_subscribe_m1: step_out_subscribe(1), 6;
-    out_subscribe_m2: step_out_subscribe(2), 6;
-    out_ping_m2: step_out_ping(2), 6;
-    in_puback_m1: step_in_puback(1), 6;
-    in_puback_m2: step_in_puback(2), 6;
-    in_puback_m3: step_in_puback(3), 7;
-    in_pubrec_m1: step_in_pubrec(1), 6;
-    in_pubrec_m2: step_in_pubrec(2), 6;
-    in_pubrec_m3: step_in_pubrec(3), 7;
-    in_pubcomp_m1: step_in_pubcomp(1), 6;
-    in_pubcomp_m2: step_in_pubcomp(2), 6;
-    in_pubcomp_m3: step_in_pubcomp(3), 7;
-    in_publish_m2: step_in_publish(2), 6;
-    in_pubrel_m2: step_in_pubrel(2), 6;
-    in_misc_m2: step_in_misc(2), 6;
 }
 
 // the real sizes `MqttState::new` asks the bit sets for (the stub scales them down)
@@ -816,7 +820,7 @@ fn is_publish(r: &Request, pkid: u16, tag: u8, qos2: bool) -> bool {
 
 /// ids wrap, the broker acknowledges in order, the connection fails: retransmission must be in
 /// the original send order (C11), each publish once with its id and content (C02)
-pub fn scn_wrap_order() {
+pub fn scn_wrap_order<const PR: u8>() {
     let mut st = MqttState::new(3, false);
     let (ta, tb, tc, td): (u8, u8, u8, u8) = (kani::any(), kani::any(), kani::any(), kani::any());
     kani::assume(ta < 4 && tb < 4 && tc < 4 && td < 4);
@@ -824,65 +828,96 @@ pub fn scn_wrap_order() {
     let rb = st.handle_outgoing_packet(publish_req(tb, false));
     let rc = st.handle_outgoing_packet(publish_req(tc, false));
     let k1 = st.handle_incoming_packet(Packet::PubAck(PubAck::new(1)));
-    assert!(k1.is_ok(), "C10: in-order PUBACK rejected");
+    if on(PR, 10) { assert!(k1.is_ok(), "C10: in-order PUBACK rejected") };
     // d is admitted (inflight 2 < 3) and wraps onto the freed id 1
     let rd = st.handle_outgoing_packet(publish_req(td, false));
-    assert!(matches!(&rd, Ok(Some(Packet::Publish(p))) if p.pkid == 1), "C07: wrapped publish must reuse the freed id 1");
+    if on(PR, 7) { assert!(matches!(&rd, Ok(Some(Packet::Publish(p))) if p.pkid == 1), "C07: wrapped publish must reuse the freed id 1") };
     let pending = st.clean();
-    assert!(pending.len() == 3, "C02: clean() must return the three unacknowledged publishes");
-    assert!(is_publish(&pending[0], 2, tb, false), "C11: first retransmission must be b (id 2)");
-    assert!(is_publish(&pending[1], 3, tc, false), "C11: second retransmission must be c (id 3)");
-    assert!(is_publish(&pending[2], 1, td, false), "C11: d (id 1, sent last) must be retransmitted last");
-    assert!(st.inflight() == 0, "C02: clean() must reset the window");
+    if on(PR, 2) { assert!(pending.len() == 3, "C02: clean() must return the three unacknowledged publishes") };
+    if on(PR, 11) { assert!(is_publish(&pending[0], 2, tb, false), "C11: first retransmission must be b (id 2)") };
+    if on(PR, 11) { assert!(is_publish(&pending[1], 3, tc, false), "C11: second retransmission must be c (id 3)") };
+    if on(PR, 11) { assert!(is_publish(&pending[2], 1, td, false), "C11: d (id 1, sent last) must be retransmitted last") };
+    if on(PR, 2) { assert!(st.inflight() == 0, "C02: clean() must reset the window") };
     kani::cover!(true, "done");
     core::mem::forget((ra, rb, rc, rd, k1, pending, st));
 }
 
 /// QoS2 flow half way + QoS1 publish, failure, session-present replay
-pub fn scn_release_replay() {
+pub fn scn_release_replay<const PR: u8>() {
     let mut st = MqttState::new(2, false);
     let (ta, tb): (u8, u8) = (kani::any(), kani::any());
     kani::assume(ta < 4 && tb < 4);
     let ra = st.handle_outgoing_packet(publish_req(ta, true));
     let k = st.handle_incoming_packet(Packet::PubRec(PubRec::new(1)));
-    assert!(matches!(&k, Ok(Some(Packet::PubRel(r))) if r.pkid == 1), "C10: PUBREC must be answered with PUBREL");
+    if on(PR, 10) { assert!(matches!(&k, Ok(Some(Packet::PubRel(r))) if r.pkid == 1), "C10: PUBREC must be answered with PUBREL") };
     let rb = st.handle_outgoing_packet(publish_req(tb, false));
-    assert!(st.inflight() == 2, "C07: QoS2 flow stays in flight until PUBCOMP");
+    if on(PR, 7) { assert!(st.inflight() == 2, "C07: QoS2 flow stays in flight until PUBCOMP") };
     let pending = st.clean();
-    assert!(pending.len() == 2, "C02: clean() must return the publish and the pending release");
-    assert!(is_publish(&pending[0], 2, tb, false), "C11: unacknowledged publishes come first");
-    assert!(matches!(&pending[1], Request::PubRel(r) if r.pkid == 1), "C02: pending release of id 1 missing");
+    if on(PR, 2) { assert!(pending.len() == 2, "C02: clean() must return the publish and the pending release") };
+    if on(PR, 11) { assert!(is_publish(&pending[0], 2, tb, false), "C11: unacknowledged publishes come first") };
+    if on(PR, 2) { assert!(matches!(&pending[1], Request::PubRel(r) if r.pkid == 1), "C02: pending release of id 1 missing") };
     // session present: both are transmitted again without user action and held again
     let mut it = pending.into_iter();
     let p0 = st.handle_outgoing_packet(it.next().unwrap());
     let p1 = st.handle_outgoing_packet(it.next().unwrap());
-    assert!(matches!(&p0, Ok(Some(Packet::Publish(p))) if view(p) == P { pkid: 2, qos2: false, tag: tb }), "C02: publish not retransmitted unchanged");
-    assert!(matches!(&p1, Ok(Some(Packet::PubRel(r))) if r.pkid == 1), "C02: release not retransmitted");
-    assert!(st.inflight() == 2, "C07: inflight after replay");
+    if on(PR, 2) { assert!(matches!(&p0, Ok(Some(Packet::Publish(p))) if view(p) == P { pkid: 2, qos2: false, tag: tb }), "C02: publish not retransmitted unchanged") };
+    if on(PR, 2) { assert!(matches!(&p1, Ok(Some(Packet::PubRel(r))) if r.pkid == 1), "C02: release not retransmitted") };
+    if on(PR, 7) { assert!(st.inflight() == 2, "C07: inflight after replay") };
     let again = st.clean();
-    assert!(again.len() == 2, "C02: a second failure during the replay must still carry both over");
+    if on(PR, 2) { assert!(again.len() == 2, "C02: a second failure during the replay must still carry both over") };
     kani::cover!(true, "done");
     core::mem::forget((ra, rb, k, p0, p1, it, again, st));
 }
 
 /// an outstanding ping does not survive the connection (no false alarm on the next one)
-pub fn scn_ping_across_reconnect() {
+pub fn scn_ping_across_reconnect<const PR: u8>() {
     let mut st = MqttState::new(2, false);
     let p1 = st.handle_outgoing_packet(Request::PingReq(PingReq));
-    assert!(matches!(&p1, Ok(Some(Packet::PingReq))), "C18: first ping refused");
+    if on(PR, 18) { assert!(matches!(&p1, Ok(Some(Packet::PingReq))), "C18: first ping refused") };
     let unanswered = st.handle_outgoing_packet(Request::PingReq(PingReq));
-    assert!(matches!(&unanswered, Err(StateError::AwaitPingResp)), "C18: silent broker not detected at the second interval");
+    if on(PR, 18) { assert!(matches!(&unanswered, Err(StateError::AwaitPingResp)), "C18: silent broker not detected at the second interval") };
     let pending = st.clean();
-    assert!(pending.is_empty(), "C02: nothing to carry over");
+    if on(PR, 2) { assert!(pending.is_empty(), "C02: nothing to carry over") };
     let p2 = st.handle_outgoing_packet(Request::PingReq(PingReq));
-    assert!(matches!(&p2, Ok(Some(Packet::PingReq))), "C18: keep-alive failure reported on a fresh connection that was never pinged");
+    if on(PR, 18) { assert!(matches!(&p2, Ok(Some(Packet::PingReq))), "C18: keep-alive failure reported on a fresh connection that was never pinged") };
     let resp = st.handle_incoming_packet(Packet::PingResp);
     let p3 = st.handle_outgoing_packet(Request::PingReq(PingReq));
-    assert!(resp.is_ok() && matches!(&p3, Ok(Some(Packet::PingReq))), "C18: false alarm although the broker answered the ping");
+    if on(PR, 18) { assert!(resp.is_ok() && matches!(&p3, Ok(Some(Packet::PingReq))), "C18: false alarm although the broker answered the ping") };
     kani::cover!(true, "done");
     core::mem::forget((p1, unanswered, pending, p2, resp, p3, st));
 }
 
-sm_proof!(8, scn_wrap_order_m3, { scn_wrap_order() });
-sm_proof!(8, scn_release_replay_m2, { scn_release_replay() });
-sm_proof!(8, scn_ping_reconnect_m2, { scn_ping_across_reconnect() });
+
+macro_rules! v4_instances {
+    ($modname:ident, $p:literal) => {
+        pub mod $modname {
+            use super::*;
+            sm_proof!(6, out_publish_m1, { step_out_publish::<$p>(1) });
+            sm_proof!(6, out_publish_m2, { step_out_publish::<$p>(2) });
+            sm_proof!(7, out_publish_m3, { step_out_publish::<$p>(3) });
+            sm_proof!(6, out_publish_via_pending_m2, { step_out_publish_via_pending::<$p>(2) });
+            sm_proof!(6, out_subscribe_m1, { step_out_subscribe::<$p>(1) });
+            sm_proof!(6, out_subscribe_m2, { step_out_subscribe::<$p>(2) });
+            sm_proof!(6, out_ping_m2, { step_out_ping::<$p>(2) });
+            sm_proof!(6, in_puback_m1, { step_in_puback::<$p>(1) });
+            sm_proof!(6, in_puback_m2, { step_in_puback::<$p>(2) });
+            sm_proof!(7, in_puback_m3, { step_in_puback::<$p>(3) });
+            sm_proof!(6, in_pubrec_m1, { step_in_pubrec::<$p>(1) });
+            sm_proof!(6, in_pubrec_m2, { step_in_pubrec::<$p>(2) });
+            sm_proof!(7, in_pubrec_m3, { step_in_pubrec::<$p>(3) });
+            sm_proof!(6, in_pubcomp_m1, { step_in_pubcomp::<$p>(1) });
+            sm_proof!(6, in_pubcomp_m2, { step_in_pubcomp::<$p>(2) });
+            sm_proof!(7, in_pubcomp_m3, { step_in_pubcomp::<$p>(3) });
+            sm_proof!(6, in_publish_m2, { step_in_publish::<$p>(2) });
+            sm_proof!(6, in_pubrel_m2, { step_in_pubrel::<$p>(2) });
+            sm_proof!(6, in_misc_m2, { step_in_misc::<$p>(2) });
+            sm_proof!(8, scn_ping_reconnect_m2, { scn_ping_across_reconnect::<$p>() });
+        }
+    };
+}
+
+v4_instances!(c02, 2);
+v4_instances!(c07, 7);
+v4_instances!(c10, 10);
+v4_instances!(c11, 11);
+v4_instances!(c18, 18);
